@@ -67,7 +67,36 @@ class EditGen:
             return False
         return rel.split('/')[0] not in self.nocache_dirs and '/' in rel
 
-    def next_edit(self):
+    def retire_searches(self):
+        """Script edits after which no search of the project is cached any
+        more: unused searches are deleted, used ones get cache=False (same
+        result, no bookkeeping).  None when a search is written in a form
+        this cannot rewrite."""
+        ops = []
+        for sname in sorted(self.proj.scripts):
+            if not os.path.exists(self.world.s(sname)) or \
+               not sname.endswith('build.bfg'):
+                continue
+            text = self.world.read(sname)
+            if 'include=' in text or 'cache=' in text:
+                return None
+            out = []
+            for line in text.split('\n'):
+                m = re.match(r'^(\w+) = find_(files|paths)\((.*)\)$', line)
+                if m:
+                    if len(re.findall(r'\b{}\b'.format(m.group(1)),
+                                      text)) == 1:
+                        continue
+                    line = line[:-1] + ', cache=False)'
+                elif 'find_files(' in line or 'find_paths(' in line:
+                    return None
+                out.append(line)
+            new = '\n'.join(out)
+            if new != text:
+                ops.append(['write', sname, new])
+        return ops or None
+
+    def next_edit(self, force=None):
         rng = self.rng
         files, dirs = list_tree(self.world)
         dirs = self.editable_dirs(dirs)
@@ -79,7 +108,8 @@ class EditGen:
             ['script_semantic'] * 2 + ['mkdir'] * 2 + ['modify'] + \
             ['tick'] + ['hold'] + ['add_submodule']
         if getattr(self, 'added_subs', None):
-            kinds += ['remove_submodule'] * 2 + ['lose_sub_script']
+            kinds += ['remove_submodule'] * 2 + ['lose_sub_script'] + \
+                ['edit_added_sub'] * 3
         if 'options.bfg' in self.proj.scripts and \
            os.path.exists(self.world.s('options.bfg')):
             kinds += ['lose_options']
@@ -93,6 +123,8 @@ class EditGen:
         if absent:
             kinds += ['absent_base'] * 3
         k = rng.choice(kinds)
+        if force:
+            k = force
         if k == 'hold':
             # the next few edits happen within one tick of the clock
             return [['hold', rng.randint(2, 4)]], 'hold'
@@ -100,10 +132,17 @@ class EditGen:
             self.n += 1
             name = 'addsub{}'.format(self.n)
             self.added_subs = getattr(self, 'added_subs', []) + [name]
+            # with or without a search of its own
+            files = "find_files('**/*.c')"
+            if rng.random() < 0.5 or force:
+                files = "['one.c']"
+                self.protected.add(name + '/one.c')
+                self.protected_dirs.add(name)
             return [
                 ['write', name + '/build.bfg',
-                 "# added submodule\nfound = find_files('**/*.c')\n"
-                 "lib = static_library('{}', files=found)\n".format(name)],
+                 "# added submodule\nfound = {}\n"
+                 "lib = static_library('{}', files=found)\n".format(
+                     files, name)],
                 ['write', name + '/one.c', G.c_source(name)],
                 ['append', 'build.bfg',
                  "{0} = submodule('{0}')\n".format(name)],
@@ -121,6 +160,16 @@ class EditGen:
                 return [['remove', 'options.bfg']], 'remove_options'
             return [['rename', 'options.bfg', 'options.bfg.bak']], \
                 'rename_options'
+        if k == 'edit_added_sub':
+            # an edit of a script that became an input of the regeneration
+            # step only after the first configure
+            name = rng.choice(self.added_subs)
+            self.n += 1
+            if not os.path.exists(self.world.s(name + '/build.bfg')):
+                return [['tick', 1]], 'tick'
+            return [['append', name + '/build.bfg',
+                     "alias('{}_also{}', [lib])\n".format(name, self.n)]], \
+                'edit_added_sub'
         if k == 'lose_sub_script':
             name = rng.choice(self.added_subs)
             return [['rename', name + '/build.bfg',
@@ -367,7 +416,13 @@ class C08History:
                 PROP, 'termination', 'second run does not terminate',
                 feats | {'second_run'}, idx))
             return
-        if 'full' in out2 or not r2.ok or sim.primary() != before:
+        # via a whole build: a *build* step that already failed in the first
+        # run (a source file went away) fails again; that is not about
+        # regeneration
+        failed2 = not r2.ok and (kind != 'build' or r.ok)
+        if not r2.ok and not failed2:
+            sim.count('second_build_fails_like_first')
+        if 'full' in out2 or failed2 or sim.primary() != before:
             self.violations.append(Violation(
                 PROP, 'quiescence',
                 'second regeneration step right after the first: status={} '
@@ -463,8 +518,39 @@ def run_case(seed, root, params=None):
             hist.step(op, len(ops) - 1)
             return bool(hist.violations)
 
+        def regen_op():
+            x = rng.random()
+            if x < 0.7:
+                return ['regen']
+            if x < 0.8:
+                return ['build']
+            if x < 0.9:
+                return ['bfg', ['regenerate', '--lazy', sim.world.build]]
+            return ['bfg', ['regenerate', sim.world.build]]
+
         if rng.random() < 0.5:
             if do(['build'] if rng.random() < 0.5 else ['regen']):
+                return
+        if rng.random() < params.get('phased', 0.1):
+            # a phased history: the script stops using a feature that has
+            # bookkeeping of its own in the build directory, later a new
+            # input of the regeneration step appears, later only that input
+            # is edited
+            retire = eg.retire_searches()
+            if retire:
+                sim.count('phased.retire_searches')
+                for phase in (retire, None, 'add_submodule', None,
+                              'edit_added_sub', None, 'edit_added_sub',
+                              None):
+                    if phase is None:
+                        if do(regen_op()):
+                            return
+                        continue
+                    edits = phase if isinstance(phase, list) else \
+                        eg.next_edit(force=phase)[0]
+                    for e in edits:
+                        if do(e):
+                            return
                 return
         for _ in range(n_rounds):
             for _ in range(rng.randint(1, 3)):
